@@ -16,4 +16,4 @@ require (
 	rsc.io/tmplfunc v0.0.3 // indirect
 )
 
-replace github.com/crate-crypto/go-ipa => /repo
+replace github.com/crate-crypto/go-ipa => /tmp/repo-dev
